@@ -661,7 +661,7 @@ FinishService(S, n) ==
                       V == pr[2]
                       c == Cu(V, i)
                       V1 == SetCu(V, i, [c EXCEPT !.dest = d])
-                      resetGuard == ~IsInfC(V, n) /\ (Nd(V, n).c > 0 \/ ~Dev(V, "F7"))
+                      resetGuard == ~IsInfC(V, n)   \* (the pinned code also required c > 0: finding F7, fixed)
                   IN IF resetGuard /\ ~IsSlotted(V, n) /\ (c.srv <= 0 \/ ~HasSrv(V, n, c.srv))
                      THEN Crash(V1, "AttributeError:finish_service")
                      ELSE LET V2 == IF resetGuard /\ ~IsSlotted(V, n)
